@@ -3,6 +3,7 @@ package main
 import (
 	"encoding/json"
 	"fmt"
+	"sort"
 	"strings"
 
 	"verif/seqx/respgen"
@@ -12,54 +13,86 @@ import (
 
 // Space 2: HTTP parser feeds. Every stream below is fed to a fresh parser (server side with the
 // real ServerProcessor and a handler that looks at the body and answers; client side with the
-// real ClientProcessor) as one piece and in every single-cut segmentation; for every cut the
-// connection is closed either only at the end or right at the cut (with the second segment
-// still delivered, as a read already in flight would be); streams containing an Upgrade hand the
-// connection over to a stub ParserCloser in both engine styles (blocking: the parser is closed
-// and cleaned after the hand-over; non-blocking: it is abandoned). The parser's cache buffer
-// (allocated / appended / replaced / freed on every exit path), the request body buffers and
-// the response writer's buffers all come from the tracking allocator.
+// real ClientProcessor) in one piece and cut into two, three and four reads and into fixed-size
+// pieces (byte at a time, 2, 3, 5, 7 bytes); the connection is closed (CloseAndClean) either only
+// at the end or right at a cut, with the remaining pieces still delivered, as a read already in
+// flight would be; streams containing an Upgrade hand the connection over to a stub ParserCloser
+// in both engine styles (blocking: the parser is closed and cleaned after the hand-over;
+// non-blocking: it is abandoned). The parser's cache buffer (allocated / appended / replaced /
+// freed on every exit path), the request body buffers and the response writer's buffers all come
+// from the tracking allocator.
+//
+// Why more than one cut: the cache has three exits per read - created (no cache yet, a tail is
+// left), replaced (a cache exists, the read completed an element and left a tail again) and
+// released (everything consumed) - and "replaced" needs a read that ends inside a token followed by
+// a read that completes an element and ends inside the next one, i.e. at least three reads.
+//
+// Content oracle (seqx/respgen.RunFeeds): after every Parse call the retained cache is compared
+// with the tail of the input fed so far, the body under assembly, everything the handler is
+// given (method, URI, protocol, host, header keys and values, body, trailers; status etc. on the
+// client side), the bytes handed to the ParserCloser and the error texts are searched for the
+// allocator's poison pattern: the streams do not contain the poison byte, the allocator writes it
+// only over freed buffers and never recycles memory, so a poison byte there was read out of a
+// freed buffer (free, then copy out of it) although no allocator call or observation point sits
+// between the Free and the read.
 
 func init() {
 	register(parserPart)
 	registerReplay("parser-feed", parserReplay)
-	rules = append(rules, "[parser] every stream of a fixed set (requests: no body / Content-Length / chunked with trailers / pipelines / Upgrade followed by foreign bytes / malformed; responses alike) x {one piece, every single cut (thorough: every double cut of streams up to 140 bytes)} x {close at the end, close at the first cut} x {blocking, non-blocking hand-over style} x 4 allocator variants;")
-	assumptions = append(assumptions, "[parser] after Parse returns an error the harness does what the engine does: CloseAndClean and no further feeds; bytes delivered after a close are still passed to Parse (it must refuse them without touching released buffers)")
+	rules = append(rules, "[parser] every stream of a fixed set (requests: no body / Content-Length / chunked with trailers / pipelines / Upgrade followed by foreign bytes / malformed; responses alike) x {one piece; every single cut x {close at the end, close at the cut}; every pair of cuts (streams up to 140 bytes; longer: every pair of structural positions = both sides of every SP, ':', CR, LF, the middle of every token, message boundaries, the 1024-byte cache threshold) x {close at the end, close at the second cut}; every triple of cuts (streams up to 32 bytes; longer: every triple out of 9 consecutive positions of {inside the first token of a line, between CR and LF, after LF, message boundaries}) x {close at the end, close at the third cut}; pieces of 1, 2, 3, 5, 7 bytes, byte at a time also with a close after every piece (longer streams: after structural positions)} x {blocking, non-blocking hand-over style, for the streams that hand over} x 4 allocator variants; thorough adds close at the first cut for pairs, every triple of streams up to 70 bytes and unwindowed structural triples;")
+	assumptions = append(assumptions, "[parser] after Parse returns an error the harness does what the engine does: CloseAndClean and no further feeds; bytes delivered after a close are still passed to Parse (it must refuse them without touching released buffers)",
+		"[parser] the unparsed bytes a parser holds back between two reads are the tail of what it was fed (it never rewrites them), so their expected value is known; only a poison byte in that tail (or in reported data) is an ownership violation, any other difference is counted and left to C06")
 }
 
-var serverStreams = []string{
-	"GET / HTTP/1.1\r\nHost: a\r\n\r\n",
-	"POST /p HTTP/1.1\r\nHost: a\r\nContent-Length: 10\r\n\r\n0123456789",
-	"POST /q HTTP/1.1\r\nHost: a\r\nContent-Length: 10\r\n\r\n0123456789",
-	"POST /n HTTP/1.1\r\nHost: a\r\nContent-Length: 10\r\n\r\n0123456789",
-	"POST /c HTTP/1.1\r\nHost: a\r\nTransfer-Encoding: chunked\r\nTrailer: X-T\r\n\r\n5\r\nhello\r\n6\r\n world\r\n0\r\nX-T: v\r\n\r\n",
-	"POST /q HTTP/1.1\r\nHost: a\r\nTransfer-Encoding: chunked\r\n\r\n5\r\nhello\r\n6\r\n world\r\n0\r\n\r\n",
-	"GET /1 HTTP/1.1\r\nHost: a\r\n\r\nPOST /p HTTP/1.1\r\nHost: a\r\nContent-Length: 4\r\n\r\nabcdGET /3 HTTP/1.1\r\nHost: a\r\n\r\n",
-	"GET /a HTTP/1.0\r\n\r\nGET /b HTTP/1.1\r\nHost: a\r\n\r\n",
-	"POST /big HTTP/1.1\r\nHost: a\r\nTransfer-Encoding: chunked\r\n\r\n7d0\r\n" + strings.Repeat("x", 2000) + "\r\n3\r\nabc\r\n0\r\n\r\n",
-	"GET /ws HTTP/1.1\r\nHost: a\r\nConnection: Upgrade\r\nUpgrade: websocket\r\n\r\n\x81\x05hello\x81\x03abc",
-	"POST /p HTTP/1.1\r\nHost: a\r\nContent-Length: 4\r\n\r\nabcdGET /ws HTTP/1.1\r\nHost: a\r\nUpgrade: websocket\r\n\r\n\x81\x05hello",
-	// malformed
-	"G=T / HTTP/1.1\r\nHost: a\r\n\r\n",
-	"POST /c HTTP/1.1\r\nHost: a\r\nTransfer-Encoding: chunked\r\n\r\nzz\r\nhello\r\n",
-	"POST /p HTTP/1.1\r\nHost: a\r\nContent-Length: 4\r\n\r\nabcd\x00\x01garbage\r\n\r\n",
-	"GET / HTTP/1.1\rX-broken\r\n\r\n",
-	"POST /p HTTP/1.1\r\nHost: a\r\nContent-Length: 4x\r\n\r\nabcd",
-	"POST /c HTTP/1.1\r\nHost: a\r\nTransfer-Encoding: chunked\r\nTrailer: X-T\r\n\r\n3\r\nabc\r\n0\r\nX-Other v\r\n\r\n",
-	"GET / HTTP/1.1\r\nHost: a\r\nBad Header\r\n\r\n",
+// feedStream is a byte stream given as its messages (the boundaries between them are structural
+// cut positions that no separator byte marks, e.g. the end of a Content-Length body).
+type feedStream []string
+
+func (f feedStream) bytes() []byte { return []byte(strings.Join(f, "")) }
+
+func (f feedStream) boundaries() []int {
+	var out []int
+	n := 0
+	for _, p := range f[:len(f)-1] {
+		n += len(p)
+		out = append(out, n)
+	}
+	return out
 }
 
-var clientStreams = []string{
-	"HTTP/1.1 200 OK\r\nContent-Length: 5\r\n\r\nhello",
-	"HTTP/1.1 204 No Content\r\n\r\n",
-	"HTTP/1.1 200 OK\r\nTransfer-Encoding: chunked\r\nTrailer: X-T\r\n\r\n5\r\nhello\r\n6\r\n world\r\n0\r\nX-T: v\r\n\r\n",
-	"HTTP/1.1 200 OK\r\nContent-Length: 5\r\n\r\nhelloHTTP/1.1 404 Not Found\r\nTransfer-Encoding: chunked\r\n\r\n3\r\nabc\r\n0\r\n\r\n",
-	"HTTP/1.1 101 Switching Protocols\r\nUpgrade: websocket\r\nConnection: Upgrade\r\n\r\n\x81\x05hello\x81\x03abc",
+var serverStreams = []feedStream{
+	{"GET / HTTP/1.1\r\nHost: a\r\n\r\n"},
+	{"POST /p HTTP/1.1\r\nHost: a\r\nContent-Length: 10\r\n\r\n0123456789"},
+	{"POST /q HTTP/1.1\r\nHost: a\r\nContent-Length: 10\r\n\r\n0123456789"},
+	{"POST /n HTTP/1.1\r\nHost: a\r\nContent-Length: 10\r\n\r\n0123456789"},
+	{"POST /c HTTP/1.1\r\nHost: a\r\nTransfer-Encoding: chunked\r\nTrailer: X-T\r\n\r\n5\r\nhello\r\n6\r\n world\r\n0\r\nX-T: v\r\n\r\n"},
+	{"POST /q HTTP/1.1\r\nHost: a\r\nTransfer-Encoding: chunked\r\n\r\n5\r\nhello\r\n6\r\n world\r\n0\r\n\r\n"},
+	{"GET /1 HTTP/1.1\r\nHost: a\r\n\r\n", "POST /p HTTP/1.1\r\nHost: a\r\nContent-Length: 4\r\n\r\nabcd", "GET /3 HTTP/1.1\r\nHost: a\r\n\r\n"},
+	{"GET /a HTTP/1.0\r\n\r\n", "GET /b HTTP/1.1\r\nHost: a\r\n\r\n"},
+	{"POST /big HTTP/1.1\r\nHost: a\r\nTransfer-Encoding: chunked\r\n\r\n7d0\r\n" + strings.Repeat("x", 2000) + "\r\n3\r\nabc\r\n0\r\n\r\n"},
+	{"GET /ws HTTP/1.1\r\nHost: a\r\nConnection: Upgrade\r\nUpgrade: websocket\r\n\r\n", "\x81\x05hello", "\x81\x03abc"},
+	{"POST /p HTTP/1.1\r\nHost: a\r\nContent-Length: 4\r\n\r\nabcd", "GET /ws HTTP/1.1\r\nHost: a\r\nUpgrade: websocket\r\n\r\n", "\x81\x05hello"},
 	// malformed
-	"HTTP/1.1 2x0 OK\r\nContent-Length: 5\r\n\r\nhello",
-	"HTTP/1.1 200 OK\r\nTransfer-Encoding: chunked\r\n\r\n5\r\nhelloXX\r\n",
-	"XTTP/1.1 200 OK\r\n\r\n",
-	"HTTP/1.1 200 OK\r\nContent-Length: 5\r\n\r\nhello\x00garbage",
+	{"G=T / HTTP/1.1\r\nHost: a\r\n\r\n"},
+	{"POST /c HTTP/1.1\r\nHost: a\r\nTransfer-Encoding: chunked\r\n\r\nzz\r\nhello\r\n"},
+	{"POST /p HTTP/1.1\r\nHost: a\r\nContent-Length: 4\r\n\r\nabcd", "\x00\x01garbage\r\n\r\n"},
+	{"GET / HTTP/1.1\rX-broken\r\n\r\n"},
+	{"POST /p HTTP/1.1\r\nHost: a\r\nContent-Length: 4x\r\n\r\nabcd"},
+	{"POST /c HTTP/1.1\r\nHost: a\r\nTransfer-Encoding: chunked\r\nTrailer: X-T\r\n\r\n3\r\nabc\r\n0\r\nX-Other v\r\n\r\n"},
+	{"GET / HTTP/1.1\r\nHost: a\r\nBad Header\r\n\r\n"},
+}
+
+var clientStreams = []feedStream{
+	{"HTTP/1.1 200 OK\r\nContent-Length: 5\r\n\r\nhello"},
+	{"HTTP/1.1 204 No Content\r\n\r\n"},
+	{"HTTP/1.1 200 OK\r\nTransfer-Encoding: chunked\r\nTrailer: X-T\r\n\r\n5\r\nhello\r\n6\r\n world\r\n0\r\nX-T: v\r\n\r\n"},
+	{"HTTP/1.1 200 OK\r\nContent-Length: 5\r\n\r\nhello", "HTTP/1.1 404 Not Found\r\nTransfer-Encoding: chunked\r\n\r\n3\r\nabc\r\n0\r\n\r\n"},
+	{"HTTP/1.1 101 Switching Protocols\r\nUpgrade: websocket\r\nConnection: Upgrade\r\n\r\n", "\x81\x05hello", "\x81\x03abc"},
+	// malformed
+	{"HTTP/1.1 2x0 OK\r\nContent-Length: 5\r\n\r\nhello"},
+	{"HTTP/1.1 200 OK\r\nTransfer-Encoding: chunked\r\n\r\n5\r\nhelloXX\r\n"},
+	{"XTTP/1.1 200 OK\r\n\r\n"},
+	{"HTTP/1.1 200 OK\r\nContent-Length: 5\r\n\r\nhello", "\x00garbage"},
 }
 
 type parserInput struct {
@@ -69,11 +102,86 @@ type parserInput struct {
 	Text   string           `json:"text"`
 }
 
+func isSep(c byte) bool { return c == ' ' || c == ':' || c == '\r' || c == '\n' }
+
+// structuralCuts returns two sets of cut positions of a stream. full: both sides of every
+// separator byte (SP, ':', CR, LF), the middle of every token (maximal run of other bytes, 3 bytes
+// or more), the message boundaries, the first and last position and, for streams longer than the
+// pooled buffer capacity, the positions around every multiple of 1024 bytes after the start of a
+// token longer than that (the carry-over cache crossing the capacity). reduced: one position
+// inside the first token of every line, between CR and LF, after every LF (an element end), and
+// the message boundaries.
+func structuralCuts(s []byte, boundaries []int) (full, reduced []int) {
+	n := len(s)
+	fset, rset := map[int]bool{}, map[int]bool{}
+	add := func(set map[int]bool, x int) {
+		if x > 0 && x < n {
+			set[x] = true
+		}
+	}
+	add(fset, 1)
+	add(fset, n-1)
+	lineStart := true
+	for i := 0; i < n; {
+		if isSep(s[i]) {
+			add(fset, i)
+			add(fset, i+1)
+			if s[i] == '\n' {
+				add(rset, i+1)
+				if i > 0 && s[i-1] == '\r' {
+					add(rset, i)
+				}
+				lineStart = true
+			}
+			i++
+			continue
+		}
+		j := i
+		for j < n && !isSep(s[j]) {
+			j++
+		}
+		if j-i >= 3 {
+			add(fset, i+(j-i)/2)
+		}
+		if lineStart && j-i >= 2 {
+			add(rset, i+(j-i)/2)
+			lineStart = false
+		}
+		for k := 1024; k < j-i; k += 1024 {
+			for d := -1; d <= 1; d++ {
+				add(fset, i+k+d)
+			}
+		}
+		i = j
+	}
+	for _, b := range boundaries {
+		add(fset, b)
+		add(rset, b)
+	}
+	for x := range fset {
+		full = append(full, x)
+	}
+	for x := range rset {
+		reduced = append(reduced, x)
+	}
+	sort.Ints(full)
+	sort.Ints(reduced)
+	return
+}
+
+const (
+	famSingles = iota // one piece, every single cut, fixed-size pieces
+	famPairs
+	famTriples
+	nFamilies
+)
+
 func parserPart(tier string, sh *vkit.Shard, p *vkit.Part) {
 	env := respgen.GetEnv()
+	thorough := tier == "thorough"
 	type base struct {
 		client bool
-		s      string
+		s      feedStream
 	}
 	var bases []base
 	for _, s := range serverStreams {
@@ -83,84 +191,161 @@ func parserPart(tier string, sh *vkit.Shard, p *vkit.Part) {
 		bases = append(bases, base{true, s})
 	}
 	for bi, b := range bases {
+		stream := b.s.bytes()
+		n := len(stream)
+		full, reduced := structuralCuts(stream, b.s.boundaries())
 		for _, v := range allocVariants {
-			// work item: one stream under one allocator variant, all its segmentations
-			if !sh.Mine() {
-				continue
-			}
-			stream := []byte(b.s)
-			n := len(stream)
-			var ref *respgen.FeedResult
-			seen := map[string]bool{}
-			runCase := func(c respgen.FeedCase) {
-				r := env.RunFeeds(c, v)
-				t := r.T
-				sig := fmt.Sprintf("%v|%q|%v|%v", r.Seen, r.Stub, r.Errs, r.HandOver)
-				st := 0
-				if !seen[sig] {
-					seen[sig] = true
-					st = 1
+			for fam := 0; fam < nFamilies; fam++ {
+				// work item: one stream under one allocator variant, one family of segmentations
+				if !sh.Mine() {
+					continue
 				}
-				p.Case(t.Mallocs > 0 && t.Frees > 0, st, len(c.Cuts)+1)
-				p.Count("parser_runs", 1)
-				p.Count("parser_mallocs", t.Mallocs)
-				p.Count("parser_frees", t.Frees)
-				p.Count("parser_appends", t.Appends)
-				if r.CachedCut > 0 {
-					p.Count("parser_runs_with_bytes_cached_at_first_cut", 1)
-				}
-				if r.HandOver {
-					p.Count("parser_runs_with_upgrade_handover", 1)
-					if len(r.Stub) > 0 {
-						p.Count("parser_runs_handing_bytes_to_the_ParserCloser", 1)
+				var ref *respgen.FeedResult
+				seen := map[string]bool{}
+				runCase := func(c respgen.FeedCase, account bool) *respgen.FeedResult {
+					r := env.RunFeeds(c, v)
+					if !account {
+						return r
 					}
+					t := r.T
+					sig := fmt.Sprintf("%v|%q|%v|%v", r.Seen, r.Stub, r.Errs, r.HandOver)
+					st := 0
+					if !seen[sig] {
+						seen[sig] = true
+						st = 1
+					}
+					p.Case(t.Mallocs > 0 && t.Frees > 0, st, r.Reads)
+					p.Count("parser_runs", 1)
+					p.Count(fmt.Sprintf("parser_runs_with_%d_reads", min(r.Reads, 5)), 1)
+					p.Count("parser_mallocs", t.Mallocs)
+					p.Count("parser_frees", t.Frees)
+					p.Count("parser_appends", t.Appends)
+					p.Count("parser_reads_replacing_the_cache(progress_and_a_tail_left)", r.ReplaceReads)
+					p.Count("parser_retained_tail_compared_with_input", r.TailChecks)
+					p.Count("parser_reported_strings_searched_for_poison", r.Reported)
+					p.Count("parser_retained_tail_differs_from_input_without_poison(C06)", r.TailDiffs)
+					p.Count("parser_stale_sentinel_in_reported_or_retained_data(not_judged)", r.StaleSeen)
+					if r.ContentOff {
+						p.Count("parser_runs_without_content_oracle(poison_byte_in_input)", 1)
+					}
+					if r.CachedCut > 0 {
+						p.Count("parser_runs_with_bytes_cached_at_first_cut", 1)
+					}
+					if r.HandOver {
+						p.Count("parser_runs_with_upgrade_handover", 1)
+						if len(r.Stub) > 0 {
+							p.Count("parser_runs_handing_bytes_to_the_ParserCloser", 1)
+						}
+					}
+					if len(r.Errs) > 0 {
+						p.Count("parser_runs_with_parse_error", 1)
+					}
+					if r.Panic != "" {
+						p.Count("parser_runs_with_recovered_panic(C08)", 1)
+					}
+					if r.Hang {
+						p.Errorf("parser: run did not return within the watchdog time: %s", c.String())
+					}
+					if ref != nil && c.CloseAfter < 0 && (fmt.Sprint(r.Seen) != fmt.Sprint(ref.Seen) || string(r.Stub) != string(ref.Stub)) {
+						p.Count("parser_runs_whose_delivery_differs_from_the_one-piece_feed(C06)", 1)
+					}
+					p.Outcome(fmt.Sprintf("parser stream#%d msgs=%d errs=%d handover=%v viol=%d", bi, len(r.Seen), len(r.Errs), r.HandOver, len(r.Viol)))
+					what := fmt.Sprintf("%s [allocator %s]", c.String(), v)
+					for _, tv := range r.Viol {
+						p.Report(tv.Sig, what+"\n  "+tv.Desc, "parser-feed", parserInput{Case: c, Policy: int(v.Policy), Move: v.Move, Text: what})
+					}
+					if len(r.Viol) > 0 {
+						p.Count("parser_runs_with_violation", 1)
+					}
+					return r
 				}
-				if len(r.Errs) > 0 {
-					p.Count("parser_runs_with_parse_error", 1)
+				// the one-piece feed: reference delivery, and whether the stream hands the connection over
+				// (only then do the two engine styles differ). Accounted once, in the singles family.
+				ref0 := runCase(respgen.FeedCase{Client: b.client, Stream: stream, CloseAfter: -1, Mode: "nonblocking"}, fam == famSingles)
+				ref = ref0
+				modes := []string{"nonblocking"}
+				if ref0.HandOver && !b.client {
+					// client connections are always read by the poller: after the dialer's hand-over the
+					// session is the WebSocket connection and the HTTP parser is never touched again
+					modes = []string{"blocking", "nonblocking"}
 				}
-				if r.Panic != "" {
-					p.Count("parser_runs_with_recovered_panic(C08)", 1)
+				fc := func(mode string, closeAfter int, cuts ...int) respgen.FeedCase {
+					return respgen.FeedCase{Client: b.client, Stream: stream, Cuts: cuts, CloseAfter: closeAfter, Mode: mode}
 				}
-				if r.Hang {
-					p.Errorf("parser: run did not return within the watchdog time: %s", c.String())
-				}
-				if ref != nil && c.CloseAfter < 0 && (fmt.Sprint(r.Seen) != fmt.Sprint(ref.Seen) || string(r.Stub) != string(ref.Stub)) {
-					p.Count("parser_runs_whose_delivery_differs_from_the_one-piece_feed(C06)", 1)
-				}
-				p.Outcome(fmt.Sprintf("parser stream#%d msgs=%d errs=%d handover=%v viol=%d", bi, len(r.Seen), len(r.Errs), r.HandOver, len(r.Viol)))
-				what := fmt.Sprintf("%s [allocator %s]", c.String(), v)
-				for _, tv := range r.Viol {
-					p.Report(tv.Sig, what+"\n  "+tv.Desc, "parser-feed", parserInput{Case: c, Policy: int(v.Policy), Move: v.Move, Text: what})
-				}
-				if len(r.Viol) > 0 {
-					p.Count("parser_runs_with_violation", 1)
-				}
-				if ref == nil {
-					ref = r
-				}
-			}
-			modes := []string{"blocking", "nonblocking"}
-			if b.client {
-				// client connections are always read by the poller: after the dialer's hand-over the
-				// session is the WebSocket connection and the HTTP parser is never touched again
-				modes = []string{"nonblocking"}
-			}
-			for _, mode := range modes {
-				runCase(respgen.FeedCase{Client: b.client, Stream: stream, CloseAfter: -1, Mode: mode})
-				for cut := 1; cut < n; cut++ {
-					runCase(respgen.FeedCase{Client: b.client, Stream: stream, Cuts: []int{cut}, CloseAfter: -1, Mode: mode})
-					runCase(respgen.FeedCase{Client: b.client, Stream: stream, Cuts: []int{cut}, CloseAfter: 1, Mode: mode})
-				}
-				if tier == "thorough" && n <= 140 {
-					for c1 := 1; c1 < n; c1++ {
-						for c2 := c1 + 1; c2 < n; c2++ {
-							runCase(respgen.FeedCase{Client: b.client, Stream: stream, Cuts: []int{c1, c2}, CloseAfter: -1, Mode: mode})
-							runCase(respgen.FeedCase{Client: b.client, Stream: stream, Cuts: []int{c1, c2}, CloseAfter: 2, Mode: mode})
+				for _, mode := range modes {
+					switch fam {
+					case famSingles:
+						if mode != "nonblocking" {
+							runCase(fc(mode, -1), true)
+						}
+						for cut := 1; cut < n; cut++ {
+							runCase(fc(mode, -1, cut), true)
+							runCase(fc(mode, 1, cut), true)
+						}
+						// fixed-size pieces; byte at a time also with the close after every piece
+						for _, k := range []int{1, 2, 3, 5, 7} {
+							if k >= n {
+								continue
+							}
+							c := fc(mode, -1)
+							c.Chunk = k
+							runCase(c, true)
+						}
+						closes := full
+						if n <= 140 || thorough {
+							closes = closes[:0:0]
+							for j := 1; j < n; j++ {
+								closes = append(closes, j)
+							}
+						}
+						for _, j := range closes {
+							c := fc(mode, j)
+							c.Chunk = 1
+							runCase(c, true)
+						}
+					case famPairs:
+						set := full
+						if n <= 140 {
+							set = set[:0:0]
+							for j := 1; j < n; j++ {
+								set = append(set, j)
+							}
+						}
+						for i1, c1 := range set {
+							for _, c2 := range set[i1+1:] {
+								runCase(fc(mode, -1, c1, c2), true)
+								runCase(fc(mode, 2, c1, c2), true)
+								if thorough {
+									runCase(fc(mode, 1, c1, c2), true)
+								}
+							}
+						}
+					case famTriples:
+						set, window := reduced, 9
+						if n <= 32 || (thorough && n <= 70) {
+							set, window = set[:0:0], n
+							for j := 1; j < n; j++ {
+								set = append(set, j)
+							}
+						} else if thorough {
+							window = len(set)
+						}
+						for i1 := range set {
+							hi := min(len(set), i1+window)
+							for i2 := i1 + 1; i2 < hi; i2++ {
+								for i3 := i2 + 1; i3 < hi; i3++ {
+									runCase(fc(mode, -1, set[i1], set[i2], set[i3]), true)
+									runCase(fc(mode, 3, set[i1], set[i2], set[i3]), true)
+								}
+							}
 						}
 					}
 				}
+				if fam == famSingles {
+					p.Sample(map[string]interface{}{"space": "parser", "stream": string(stream[:min(n, 60)]), "client": b.client, "allocator": v.String(), "single_cuts": n - 1,
+						"structural_positions": len(full), "reduced_structural_positions": len(reduced)})
+				}
 			}
-			p.Sample(map[string]interface{}{"space": "parser", "stream": b.s[:min(len(b.s), 60)], "client": b.client, "allocator": v.String(), "single_cuts": n - 1})
 		}
 	}
 }
